@@ -15,6 +15,7 @@ import (
 type identity struct {
 	Digits string
 	V2019  bool
+	Prefix string `json:",omitempty"` // the server's KeyFunc puts this in front of the phone number
 }
 
 func (id identity) bcd() []byte {
@@ -26,6 +27,13 @@ func (id identity) bcd() []byte {
 
 // key is what the server uses as session key: the phone with leading zeros stripped.
 func (id identity) key() string {
+	if id.Prefix != "" {
+		return id.Prefix + id.baseKey()
+	}
+	return id.baseKey()
+}
+
+func (id identity) baseKey() string {
 	k := ref.StripZeros(id.Digits)
 	if k == "" {
 		n := 12
